@@ -205,6 +205,15 @@ func (h *History) step(gap time.Duration, env []EnvAction, kinds []string) []Vio
 			}
 		}
 	}
+	if pat := os.Getenv("VERIF_DEBUG_EVTYPE"); pat != "" {
+		for _, tx := range blk.Txs {
+			for _, e := range tx.Events {
+				if strings.Contains(e.Type, pat) {
+					fmt.Fprintf(os.Stderr, "height %d %s %s %v\n", blk.Height, tx.MsgType, e.Type, e.Attributes)
+				}
+			}
+		}
+	}
 	if os.Getenv("VERIF_DEBUG_EVENTS") != "" {
 		for _, e := range blk.Events {
 			if e.Type == "coinbase" || e.Type == "burn" {
@@ -534,6 +543,15 @@ func LoadTrace(path string) (*Trace, error) {
 
 // RunProfileTest is the entry point used by every chain-engine test function.
 func RunProfileTest(t *testing.T, p *Profile) {
+	if tr, on := shrinkFromEnv(p); on {
+		if tr == nil {
+			t.Fatalf("harness: cannot load trace to shrink")
+		}
+		if len(tr.Violations) > 0 {
+			t.Fatalf("VIOLATION %s (shrunk to %d blocks): %s — %s", p.ID, len(tr.Blocks), tr.Violations[0].Sig, tr.Violations[0].Detail)
+		}
+		return
+	}
 	if path := os.Getenv("VERIF_REPLAY"); path != "" {
 		tr, err := LoadTrace(path)
 		if err != nil {
